@@ -732,4 +732,4 @@ def run(ctx) -> None:
                    f"all LayerRule call sequences of length 2..{ll} over {m} calls (cut at the first raising call), each followed by assert_applies")
     ctx.exhaustive("diagram-mutations-entry", MOD, "exh_misc", ["diagram", "mutations-rule", "mutations-layer", "entry"],
                    "all DiagramRule sequences up to length 4; every deletion/duplication/adjacent transposition of every canonical Rule and LayerRule chain; all 2^5 x 4 entry-point option combinations")
-    ctx.random("absent-names", MOD, "names_strategy", "check_name", 8000 if quick else 200000)
+    ctx.random("absent-names", MOD, "names_strategy", "check_name", 8000 if quick else 500000)
